@@ -381,6 +381,43 @@ def r8_sampling_rewinds(cx, rule="R8"):
     cx.ob(rule, rule + "/detect-rewinds", ok, f, "after sampling the head of the content for the entropy decision the reader is put back at its start on every success path: %s" % verdicts)
 
 
+def r9_offset_validity_siblings(cx):
+    """the two tail parsers that rebuild an offset table (cluster blobs, indexed value store) validate each
+    offset the same way: the inclusive Offset::is_valid(data_size) (an offset equal to the data size is the
+    start of a trailing empty item) and nothing stricter"""
+    F = cx.F
+    import ref as _ref
+    for name in ("ClusterBuilder", "ValueStoreBuilder"):
+        f = layout.find_parse(F, name)
+        b = F.body(f)
+        rd = [i for i, t in b.calls(r"Parser>::read_usized$") if i in b.reach_after(i)]
+        iv = [(i, t) for i, t in b.calls(r"offset::Offset::is_valid$") if i in b.reach_after(i)]
+        ok = len(rd) == 1 and len(iv) == 1
+        other = []
+        if ok:
+            # the loop value (read in the loop) is compared only through is_valid
+            tl = b.forward_locals({b.term(rd[0])["dest"]["l"]}, through_calls=False)
+            for i, t in b.calls(r"Try>::branch$", r"Into<.*>>::into$", r"From<.*>>::from$"):
+                if any(op_base_local(a) in tl for a in t["args"]):
+                    tl |= b.forward_locals({t["dest"]["l"]}, through_calls=False)
+            for i, blk in enumerate(b.blocks):
+                if blk.get("cleanup"):
+                    continue
+                for s in blk["s"]:
+                    if s["k"] == "assign" and s["rv"]["k"] == "bin" and s["rv"]["op"] in ("Lt", "Le", "Gt", "Ge", "Eq", "Ne"):
+                        if any(op_base_local(o) in tl for o in (s["rv"]["a"], s["rv"]["b"])):
+                            other.append(("%s@%s" % (s["rv"]["op"], s.get("ln"))))
+                t = blk["t"]
+                if call_is(t, r"PartialOrd.*>::(lt|le|gt|ge)$", r"PartialEq.*>::(eq|ne)$") and any(op_base_local(a) in tl or any(x[0] == "call" and x[1] == rd[0] for x in b.origins(a)) for a in t["args"]):
+                    other.append(callee_str(t).split("::")[-1] + "@" + str(t.get("ln")))
+            ok = not other and any(x[0] == "call" and x[1] == rd[0] for x in b.origins(iv[0][1]["args"][0]))
+        cx.ob("R9", "R9/%s" % name, ok, f, "%s::parse validates each offset read from the tail with the inclusive Offset::is_valid(data_size) only (other comparisons on it: %s)" % (name, other))
+    g = F.one(impl_self="bases::types::offset::Offset", item="is_valid", closure=False)
+    gb = F.body(g)
+    le = [s for blk in gb.blocks for s in blk["s"] if s["k"] == "assign" and s["rv"]["k"] == "bin"]
+    cx.ob("R9", "R9/Offset.is_valid-inclusive", len(le) == 1 and le[0]["rv"]["op"] == "Le", g, "Offset::is_valid(size) is `offset <= size`")
+
+
 RULES = [
     ("R1", r1_cluster_tail, 8),
     ("R2", r2_packing, 6),
@@ -390,4 +427,5 @@ RULES = [
     ("R6", r6_data_location, 3),
     ("R7", r7_width_covers, 3),
     ("R8", r8_sampling_rewinds, 1),
+    ("R9", r9_offset_validity_siblings, 3),
 ]
